@@ -90,6 +90,11 @@ def gen(rng, tier):
             actors[aid]["ops"] += rng.choice([[], [["recv", label]], [["sleep", 1000.0]]])
         else:
             actors[aid]["ops"] = c05.prog_ops(rng, kind, label, actors, gi)
+        if rng.random() < 0.4:
+            # the worker has already run (and finished) other bodies: its execution pool has drained before
+            for j in range(rng.choice([1, 1, 2])):
+                main += [["exec_src", f"p{gi}_{j}", "channel.send(1)", gi], ["recv", f"p{gi}_{j}"],
+                         ["waitclose", f"p{gi}_{j}", 60.0]]
         main.append(["exec", label, aid, gi])
         main.append(["recv", label])
         if kind in ("recv", "sleep", "busy") and "execmodel=main_thread_only" in specs[gi] and rng.random() < 0.5:
